@@ -48,12 +48,15 @@ def main():
     ran.append({"cmd": "pytest -n 12 (worktree, with change)", "failed": failed, "summary": tail})
     # 2. demo with / without
     with_change = sh(["/venv/bin/python", "DEMO.py"], cwd=tree, env=env, timeout=900)
-    sh(["git", "-C", tree, "stash", "--", "pymarkdown"])
+    # (git stash is shared between the worktrees of one repository: reverse-apply instead)
+    patch_file = os.path.join(dest, "patch.diff")
+    assert sh(["git", "-C", tree, "apply", "-R", patch_file]).returncode == 0, "cannot reverse the change"
+    assert not sh(["git", "-C", tree, "diff", "--", "pymarkdown"]).stdout.strip()
     without = sh(["/venv/bin/python", "DEMO.py"], cwd=tree, env=env, timeout=900)
-    sh(["git", "-C", tree, "stash", "pop"])
-    assert sh(["git", "-C", tree, "diff", "--", "pymarkdown"]).stdout == patch, "stash pop did not restore the change"
+    assert sh(["git", "-C", tree, "apply", patch_file]).returncode == 0, "cannot re-apply the change"
+    assert sh(["git", "-C", tree, "diff", "--", "pymarkdown"]).stdout == patch, "re-apply did not restore the change"
     ran.append({"cmd": "DEMO.py with change", "exit": with_change.returncode, "tail": with_change.stdout[-400:]})
-    ran.append({"cmd": "DEMO.py without change (git stash)", "exit": without.returncode, "tail": without.stdout[-200:]})
+    ran.append({"cmd": "DEMO.py without change (git apply -R)", "exit": without.returncode, "tail": without.stdout[-200:]})
     demo_ok = with_change.returncode != 0 and without.returncode == 0
     # 3. checks against the worktree
     detections = {}
